@@ -12,6 +12,7 @@ import io
 import json
 import math
 import os
+import signal
 import tempfile
 from typing import Any, Dict, List, Optional, Tuple
 
@@ -66,7 +67,7 @@ EXTRA_NUMERIC = ["t1.iter_cap", "t1.queue_budget", "t1.node_budget", "t1.radius_
                  "perf.parallel.max_workers", "scheduler.budgets.t1_pops", "scheduler.budgets.t1_iters", "scheduler.budgets.t2_k", "scheduler.budgets.t3_ops",
                  "t4.cooldowns.EditGraph", "k_surface"]
 LADDER: List[Any] = [0, 1, 2, 3, 16, 17, 100, 1000, 4096, 65535, 65536, 10**5, 700000, 738000, 800000, 10**6 - 1, 10**6, 10**6 + 1, 10**7, 2**31 - 1, 2**31, 2**63 - 1, 2**63, 2**64,
-                     -1, -2, 0.5, 0.999999, 1.0, 1.000001, 1e-9, 1e-300, 5e-324, -1e-9, -0.0, 0.1 + 0.2, 1e6, 1e9, 1e15, 1e16, 1e18, 1e100, 2.5, "7", "0.5", " 3 ", "1e3"]
+                     -1, -2, 0.5, 0.999999, 1.0, 1.000001, 1e-9, 1e-300, 5e-324, -1e-9, -0.0, 0.1 + 0.2, 1e6, 1e9, 1e15, 1e16, 1e18, 1e100, 1e200, 1e308, 2.5, "7", "0.5", " 3 ", "1e3"]
 
 
 def _numeric_paths() -> List[List[str]]:
@@ -80,6 +81,14 @@ def _numeric_paths() -> List[List[str]]:
                 out.append(pre + [k])
     walk(V.DEFAULTS, [])
     return sorted(out)
+
+
+class _TurnTooSlow(BaseException):
+    pass
+
+
+def _on_alarm(*_a: Any) -> None:
+    raise _TurnTooSlow()
 
 
 def _paths(tree: Any, prefix: Tuple[Any, ...] = ()) -> List[Tuple[Any, ...]]:
@@ -109,7 +118,13 @@ def generate(seed: int, tier: str) -> Dict[str, Any]:
     if boundary_only:
         # an otherwise valid configuration with ONE knob at the edge of what the validator accepts: the turn must still run
         base = E.valid_cfg(rng.stream("config"), fams, p=0.4)
-        muts.append({"kind": "set", "path": list(r.choice(_numeric_paths())), "value": {"$accepted": r.choice(["max", "max", "min"])}})
+        first = list(r.choice(_numeric_paths()))
+        muts.append({"kind": "set", "path": first, "value": {"$accepted": r.choice(["max", "max", "min"])}})
+        if r.chance(0.5):
+            # knobs interact (a budget that lets a huge factor be applied twice): one or two more from the same section
+            mates = [q for q in _numeric_paths() if q[0] == first[0] and q != first]
+            for q in r.sample(mates, min(len(mates), r.randint(1, 2))):
+                muts.append({"kind": "set", "path": list(q), "value": {"$accepted": r.choice(["max", "max", "min"])}})
     for _ in range(0 if boundary_only else r.choice([0, 1, 1, 2, 3, 4])):
         kind = r.choice(["leaf", "leaf", "unknown", "nonstring", "section", "list_elem", "boundary", "boundary"])
         ps = _paths(base)
@@ -138,7 +153,11 @@ def generate(seed: int, tier: str) -> Dict[str, Any]:
         else:
             muts.append({"kind": "set", "path": [r.choice(["t1", "t2", "t3", "t4", "graph", "scheduler", "perf"])], "value": r.choice([None, [], "x", 5, {}])})
     world = E.gen_world(rng.stream("world"), n_agents=1, max_graphs=2, max_eps=6, odd_ids=False)
-    return {"base": base, "mutations": muts, "world": world, "texts": [E.gen_text(rng.stream("ops")) for _ in range(2)]}
+    texts = [E.gen_text(rng.stream("ops")) for _ in range(2)]
+    labelled = [n["label"] for g in world["graphs"].values() for n in g["nodes"] if n.get("label")]
+    if labelled:
+        texts[0] = r.choice(labelled)  # a text that certainly seeds propagation
+    return {"base": base, "mutations": muts, "world": world, "texts": texts}
 
 
 def _get(tree: Any, path: Tuple[Any, ...]) -> Any:
@@ -355,10 +374,20 @@ def execute(p: Dict[str, Any]) -> Dict[str, Any]:
                         state = E.build_state(p["world"])
                         agent = sorted(p["world"]["agents"])[0]
                         state["active_graphs"] = list(p["world"]["agents"][agent])
-                        for i, text_in in enumerate(p["texts"]):
-                            ctx = E.make_ctx(cfg, agent, i, E.T0_MS + i * 1000)
-                            E.orch.run_turn(ctx, state, text_in)
-                        stats["executed"] = 1
+                        # "without raising" is what is decided here; a configuration that removes every termination budget
+                        # (t1.queue_budget 1e308 with decay.rate 1 on a cyclic graph) does not raise, it spins: the harness
+                        # abandons such a turn after 30 s of wall time and counts it, it is neither a pass nor a violation
+                        signal.signal(signal.SIGALRM, _on_alarm)
+                        signal.alarm(30)
+                        try:
+                            for i, text_in in enumerate(p["texts"]):
+                                ctx = E.make_ctx(cfg, agent, i, E.T0_MS + i * 1000)
+                                E.orch.run_turn(ctx, state, text_in)
+                            stats["executed"] = 1
+                        except _TurnTooSlow:
+                            stats["abandoned_endless_turn"] = 1
+                        finally:
+                            signal.alarm(0)
                     except Exception as e:  # noqa: BLE001
                         bad("runnable:%s" % _classify_exc(e), "accepted config made a turn raise %r; config: %s" % (e, text[:400]))
                     finally:
